@@ -904,8 +904,7 @@ def _c16_with_raise(rec):
     if rec.get("kind") not in ("is_blocking_but_next_statement_reached", "deleted_code_was_observable", "program_behaves_differently", "step_changes_behaviour"):
         return False
     rule, before, after = _step(rec)
-    if rule not in ("core.is_blocking", "fixes.delete_unreachable_code", "fixes.remove_redundant_else", "fixes.breakout_common_code_in_ifs", "main.format_code"):
-        return False
+    # every consumer of is_blocking inherits the answer: delete_unreachable_code, remove_redundant_else, swap_if_else, early_return, breakout_common_code_in_ifs ...
     text = before or rec.get("input") or ""
     tree = _parse(text)
     if tree is None:
